@@ -4,8 +4,10 @@ asyncio gRPC clients and the emitted REST client under virtual time and record R
 payload: {api, module, services: {proto service name: {class, snake}}, methods: {proto method name: snake},
           reply: full name of the reply type, request: {..}, unit: ticks per second,
           cases: [{id, sel: {svc, meth}, ovr: {rmode, r: {on, init, max, mult, codes, deadline}, timeout},
-                   script: [code..], jit: [num, den], transport: grpc | rest}], modes: [sync, async, rest]}
-          (grpc cases run in the modes sync and async, rest cases in the mode rest)
+                   script: [code..], jit: [num, den], transport: grpc | grpc_asyncio | rest}],
+          streams: {method: cs | bidi}, modes: [sync, async, rest]}
+          (grpc cases run in the mode sync, grpc_asyncio in async, rest in rest; a streaming method is called with
+          a plain request iterator; over asyncio the returned call object is awaited / iterated by the driver)
 result : {traces: [{id, mode, events, error}]}
 
 REST: nothing is sent.  `requests.Session.request` - the layer BELOW the AuthorizedSession the emitted transport
@@ -151,15 +153,30 @@ def main():
         vc.reset(c['jit'][0] / c['jit'][1])
 
     grpc_cases = [c for c in pl['cases'] if c.get('transport', 'grpc') == 'grpc']
+    aio_cases = [c for c in pl['cases'] if c.get('transport') == 'grpc_asyncio']
     rest_cases = [c for c in pl['cases'] if c.get('transport') == 'rest']
+    streams = pl.get('streams', {})
+    import importlib
+    Req = getattr(importlib.import_module(pl['module']), pl.get('request_type', 'Req'))
+
+    def request_iterator():
+        """a plain iterator, consumed by the first attempt (api-core's retry hands the same object in again)."""
+        return iter([Req(**pl['request']), Req(**pl['request'])])
 
     def run_sync(clients, cases, mode):
         for c in cases:
             begin(c)
             err = None
             fn = getattr(clients[c['sel']['svc']], pl['methods'][c['sel']['meth']])
+            kind = streams.get(c['sel']['meth'])
             try:
-                fn(request=dict(pl['request']), **call_kwargs(ctx, c['ovr'], False))
+                if kind is None:
+                    fn(request=dict(pl['request']), **call_kwargs(ctx, c['ovr'], False))
+                else:
+                    out = fn(requests=request_iterator(), **call_kwargs(ctx, c['ovr'], False))
+                    if kind == 'bidi':
+                        for _ in out:
+                            pass
                 ctx.events.append(dict(ev='return'))
             except Exception as e:
                 err = f'{type(e).__name__}: {e}'[:200]
@@ -177,24 +194,34 @@ def main():
                 run_sync(clients, rest_cases, 'rest')
             finally:
                 requests.Session.request = real
-        if 'sync' in pl['modes']:
+        if 'sync' in pl['modes'] and grpc_cases:
             clients = {}
             for svc, info in pl['services'].items():
                 clients[svc] = rt.grpc_client(pl['module'], info['snake'], info['class'], srv.target, ctx)[1]
             run_sync(clients, grpc_cases, 'sync')
-        if 'async' in pl['modes']:
+        if 'async' in pl['modes'] and aio_cases:
             async def amain():
                 clients, chans = {}, []
                 for svc, info in pl['services'].items():
                     _, cl, ch = rt.grpc_client(pl['module'], info['snake'], info['class'], srv.target, ctx, asyncio_=True)
                     clients[svc] = cl
                     chans.append(ch)
-                for c in grpc_cases:
+                for c in aio_cases:
                     begin(c)
                     err = None
                     fn = getattr(clients[c['sel']['svc']], pl['methods'][c['sel']['meth']])
+                    kind = streams.get(c['sel']['meth'])
                     try:
-                        await fn(request=dict(pl['request']), **call_kwargs(ctx, c['ovr'], True))
+                        if kind is None:
+                            await fn(request=dict(pl['request']), **call_kwargs(ctx, c['ovr'], True))
+                        else:
+                            # the asyncio client hands back the call object; the caller awaits / iterates it
+                            call = await fn(requests=request_iterator(), **call_kwargs(ctx, c['ovr'], True))
+                            if kind == 'bidi':
+                                async for _ in call:
+                                    pass
+                            else:
+                                await call
                         ctx.events.append(dict(ev='return'))
                     except Exception as e:
                         err = f'{type(e).__name__}: {e}'[:200]
